@@ -206,7 +206,10 @@ def replay(prop, path):
     rec = json.load(open(path if os.path.isabs(path) or os.path.exists(path) else os.path.join(env.VERIF, path)))
     case = rec["case"]
     ctx = core.Ctx(prop, rec.get("tier", "quick"), rec.get("seed", 0), 0, 1)
-    core.run_one(mod, case["kind"], case["params"], ctx)
+    params = case["params"]
+    if "sub" in case and isinstance(params, dict):
+        params = dict(params, sub=case["sub"])
+    core.run_one(mod, case["kind"], params, ctx)
     print(f"replay {prop} kind={case['kind']} params={core.canon(case['params'])[:600]}")
     if ctx.errors:
         for e in ctx.errors:
